@@ -951,6 +951,10 @@ class Executor(Generic[TContext]):
             abort = ensure_future(abort_signal.wait())
             try:
                 await wait({task, abort}, return_when=FIRST_COMPLETED)
+            except BaseException:
+                # cancelled from outside: do not orphan the wrapped work
+                task.cancel()
+                raise
             finally:
                 if not abort.done():
                     abort.cancel()
